@@ -20,6 +20,13 @@ func init() {
 			"verifier", "chain", "chain/account", "chain/account/mailbox", "chain/momentum", "chain/nom", "chain/store", "chain/genesis",
 			"consensus", "consensus/storage", "common/db", "common/types"}
 		var sites []string
+		// globalRand: every reference (call or function value) to a package-level function of math/rand, math/rand/v2 or
+		// crypto/rand in these packages, under whatever name the file imports the package. Only the constructors of a
+		// locally seeded generator (rand.New, rand.NewSource, ...) and the type names are exempt: the process-wide generator
+		// is shared with every other goroutine of the node, so a value drawn from it is not a function of the ledger.
+		var globalRand []string
+		randCtor := map[string]bool{"New": true, "NewSource": true, "NewZipf": true, "NewPCG": true, "NewChaCha8": true,
+			"Rand": true, "Source": true, "Source64": true, "Zipf": true, "PCG": true, "ChaCha8": true}
 		for _, pk := range pkgs {
 			dir := filepath.Join(repo, pk)
 			ents, err := os.ReadDir(dir)
@@ -36,9 +43,28 @@ func init() {
 				if err != nil {
 					return nil, err
 				}
+				// local names of the random-number packages in this file (import aliases included)
+				randPkg := map[string]string{}
+				for _, im := range f.Imports {
+					path := strings.Trim(im.Path.Value, "\"`")
+					if path != "math/rand" && path != "math/rand/v2" && path != "crypto/rand" {
+						continue
+					}
+					local := "rand"
+					if im.Name != nil {
+						local = im.Name.Name
+					}
+					randPkg[local] = path
+				}
 				var fn string
 				ast.Inspect(f, func(n ast.Node) bool {
 					switch x := n.(type) {
+					case *ast.SelectorExpr:
+						if id, ok := x.X.(*ast.Ident); ok && id.Obj == nil {
+							if path, isRand := randPkg[id.Name]; isRand && (path == "crypto/rand" || !randCtor[x.Sel.Name]) {
+								globalRand = append(globalRand, fmt.Sprintf("%s/%s:%s:%s.%s", pk, name, fn, path, x.Sel.Name))
+							}
+						}
 					case *ast.FuncDecl:
 						fn = x.Name.Name
 						if x.Recv != nil && len(x.Recv.List) > 0 {
@@ -54,9 +80,13 @@ func init() {
 						if sel, ok := x.Fun.(*ast.SelectorExpr); ok {
 							if id, ok := sel.X.(*ast.Ident); ok {
 								full := id.Name + "." + sel.Sel.Name
+								_, isRand := randPkg[id.Name]
+								if isRand && id.Obj == nil {
+									full = "rand." + sel.Sel.Name
+								}
 								switch {
 								case full == "time.Now" || full == "time.Since" || full == "time.Until",
-									id.Name == "rand",
+									isRand && id.Obj == nil,
 									full == "os.Getenv" || full == "os.Hostname" || full == "os.Getpid",
 									full == "runtime.NumCPU" || full == "runtime.NumGoroutine":
 									sites = append(sites, fmt.Sprintf("%s/%s:%s:%s", pk, name, fn, full))
@@ -73,9 +103,12 @@ func init() {
 			}
 		}
 		sort.Strings(sites)
+		sort.Strings(globalRand)
 		f := newFactFile("Nondet")
 		f.raw("-- sources of node-local nondeterminism in the packages that decide the effect of blocks\n")
 		f.strList("nondetSites", sites)
+		f.raw("-- references to the PROCESS-WIDE random generators (package-level functions of math/rand, math/rand/v2, crypto/rand)\n")
+		f.strList("globalRandSites", globalRand)
 		return f, nil
 	})
 }
